@@ -93,8 +93,14 @@ harnesses! {
     fn width_20_digits_witness() { body("{m:18446744073709551619}", None, DIGITS, None, "", false, true) }
     #[kani::unwind(28)]
     fn maxwidth_22_digits() { body("{m:.9999999999999999999999}", None, DIGITS, None, "", false, false) }
+    // after the fix: a width that does not fit surfaces as an ERROR marker, the prefix still renders
+    #[kani::unwind(28)]
+    fn width_20_digits_encode() { body("ab{m:18446744073709551619}", None, DIGITS, Some(true), "ab", true, false) }
     #[kani::unwind(12)]
     fn width_small_encode() { body("ab{m:>5.3}", Some(6), DIGITS, Some(false), "ab", true, false) }
+    // invalid strftime directive: must not panic at encode time
+    #[kani::unwind(12)]
+    fn date_bad_directive() { body("ab{d(%Q)}", None, DIGITS, None, "ab", true, false) }
     // syntax errors after a rendered prefix
     #[kani::unwind(12)]
     fn unknown_formatter() { body("ab{x}cd", None, DIGITS, Some(true), "ab", true, false) }
